@@ -405,6 +405,13 @@ func errorExits(fd *ast.FuncDecl) []string {
 						walk([]ast.Stmt{ei}, path+"[!("+c+")]")
 					}
 				}
+			case *ast.AssignStmt:
+				// single-assignment local (e.g. `zero := gfP{0}`): inline, so its name is irrelevant
+				if s.Tok == token.DEFINE && len(s.Lhs) == 1 && len(s.Rhs) == 1 {
+					if id, ok := s.Lhs[0].(*ast.Ident); ok {
+						en.names[id.Name] = render(s.Rhs[0], en)
+					}
+				}
 			case *ast.ReturnStmt:
 				out = append(out, path+" -> return "+renderList(s.Results, en))
 			}
